@@ -21,7 +21,9 @@ structure Scan where
   deriving Repr, Inhabited
 
 def okBindingKinds : List Name := [n!"constant", n!"lock", n!"alias"]
-def okCaptureKinds : List Name := [n!"param", n!"function"]
+/-- what a nested function may capture: a parameter of the registering function, a local function, or a local bound once to an
+    immutable tuple of constants / names (a lookup table): none of them can carry state from one creation to the next -/
+def okCaptureKinds : List Name := [n!"param", n!"function", n!"local:constant"]
 
 /-- the calls the two entry points make, in order -/
 def expectedFlow : List (Name × Name × Name) := [
